@@ -60,6 +60,7 @@ class Attribute:
         self._units = units
         self._value = value
         self._converter = converter  # to convert value
+        self._assignments = {'value': 0, 'units': 0}  # how many times each part has been assigned through its setter
         self.parent_eflr = parent_eflr
 
         self._unit_checker = Unit.make_converter("units", soft=True, allow_none=True)
@@ -97,6 +98,7 @@ class Attribute:
         """Set a new value of the attribute. Use the provided converter (if any) to transform/validate the value."""
 
         self._value = self.convert_value(val)
+        self._assignments['value'] += 1
 
     @property
     def representation_code(self) -> Union[RepresentationCode, None]:
@@ -153,6 +155,7 @@ class Attribute:
             raise RuntimeError(f"Units of {self.__class__.__name__} cannot be set")
 
         self._units = self._unit_checker(units)  # (a member of the Unit enum is turned into its value)
+        self._assignments['units'] += 1
 
     @property
     def count(self) -> Union[int, None]:
